@@ -95,8 +95,11 @@ func (f *fakeConn) ReadFrom(p []byte) (int, net.Addr, error) {
 		if ok {
 			f.sc.mu.Lock()
 			f.sc.delivered++
+			seq := f.sc.delivered
 			f.sc.mu.Unlock()
-			p[0] = byte(f.id)
+			// every packet is different (its sequence number), so a receive queue that aliases the
+			// adapter's read buffer shows up as a wrong packet at the user's ReadFrom
+			p[0] = byte(seq)
 			return 1, vaddr(1000 + f.id), nil
 		}
 		return 0, nil, errFake
@@ -323,12 +326,16 @@ func runRedial(args []string, slow bool) string {
 				type rr struct {
 					n   int
 					err error
+					buf []byte
 				}
 				done := make(chan rr, 1)
 				go func() {
 					buf := make([]byte, 64)
+					for i := range buf {
+						buf[i] = 0xee
+					}
 					n, _, err := conn.ReadFrom(buf)
-					done <- rr{n, err}
+					done <- rr{n, err, buf}
 				}()
 				select {
 				case r := <-done:
@@ -336,6 +343,11 @@ func runRedial(args []string, slow bool) string {
 						ans = "E"
 					} else {
 						consumed++
+						// packets come out in the order the carriers delivered them, each with its own content
+						if r.n != 1 || r.buf[0] != byte(consumed) {
+							return "!aliased-read"
+						}
+						scribble(r.buf)
 						ans = "p"
 					}
 				case <-time.After(10 * time.Second):
